@@ -53,6 +53,8 @@ class ExprMixin2:
             if (cls, name) in self.ext_attrs:
                 return [(st, self.ext_attrs[(cls, name)](self, st, v))]
             ft = self.field_type(cls, name) if cls else self.unique_field(name)
+            if ft is None and cls and self.repo.has_class(cls) and self.external_base_method(cls, name) is not None:
+                return [(st, V("bound", xs=(v if k == "ref" else self.unbox(v.t, cls, st), name)))]
             if ft is None and cls and not cls.startswith("ast."):
                 if cls in ("list", "dict", "set", "tuple", "bytearray", "str", "bytes") or not self.repo.has_class(cls):
                     return [(st, V("bound", xs=(v, name)))]
@@ -205,7 +207,7 @@ class ExprMixin2:
             out = []
             for s, b in self.branch(st, has, "key in dict"):
                 if b:
-                    out.append((s, self.unbox(z3.Select(s.read("dict.map", r), kb), split_type("x[" + (v.elem or "val") + "]")[1].split(",")[-1], s)))
+                    out.append((s, self.unbox(z3.Select(s.read("dict.map", r), kb), self.dict_types(v.elem)[1], s)))
                 else:
                     out.append((self.raise_exc(s, "KeyError"), None))
             return out
@@ -216,6 +218,21 @@ class ExprMixin2:
             et = self.elem_type(v)
             return self._indexed(st, ii, n, lambda s, j: self.unbox(seq[j], et, s))
         raise Unsupported(f"{self.where(node)}: subscript of {v!r}")
+
+    @staticmethod
+    def dict_types(elem):
+        """'str,dict[str,str]' -> ('str', 'dict[str,str]')"""
+        if not elem:
+            return None, None
+        depth = 0
+        for i, ch in enumerate(elem):
+            if ch == "[":
+                depth += 1
+            elif ch == "]":
+                depth -= 1
+            elif ch == "," and depth == 0:
+                return elem[:i].strip(), elem[i + 1:].strip()
+        return None, elem.strip()
 
     def _indexed(self, st, ii, n, mk):
         if self.spec_mode:
@@ -434,7 +451,7 @@ class ExprMixin2:
             return z3.And(Val.is_B(a.t), Val.b(a.t) == b.t)
         if b.k == "val" and a.k == "bool":
             return z3.And(Val.is_B(b.t), Val.b(b.t) == a.t)
-        refk = ("ref", "func", "cls", "module")
+        refk = ("ref", "func", "cls", "module", "closure")
         if a.k in refk and b.k in refk:
             return a.t == b.t
         if a.k == "val" and b.k in refk:
